@@ -174,7 +174,7 @@ def run(ctx):
         else:
             cmd = f"garden reftest-add-type-annotation <file> {s['offset']} {s['offset']}"
         ut = refgen.unbound_type(d)
-        sig = f"{tool}: the emitted annotation mentions the non-existent type `{ut}`" if ut and tool == "add_type_annotation" else f"{cls}: {d}"
+        sig = f"{tool}: the emitted annotation mentions the non-existent type `{ut}`" if ut and tool == "add_type_annotation" else f"{cls}: {refgen.blank_ticks(d)}"
         if tool == "add_type_annotation" and "__ERROR" in s["annotation"]:
             sig = f"{tool}: the emitted annotation contains the internal error-type text `__ERROR(…)`"
         ctx.violation(sig, detail, cli_cmd=cmd + " > out.gdn; garden check out.gdn; garden run out.gdn")
